@@ -22,7 +22,7 @@ import (
 func init() { families["gotext"] = gotextFamily }
 
 var gotextFns = map[string][]string{
-	"queue.go":   {"newq", "enq", "deq", "head", "emit"},
+	"queue.go":   {"newq"},
 	"pipe.go":    {"Seq", "ToSeq", "StdErr"},
 }
 
